@@ -202,7 +202,7 @@ func (x *Exec) multi(st *State, e ast.Expr, n int) []Val {
 			m := x.expr(st, e.X)
 			k := x.expr(st, e.Index)
 			v, ok := x.mapRead(st, m.T, k, typeKey(bt), u.Elem())
-			if isObjType(u.Elem()) {
+			if isObjType(u.Elem()) && !x.specMode && x.noOblig == 0 {
 				// absent key yields the zero object
 				z := x.zeroVal(st, u.Elem())
 				v = Val{Typ: u.Elem(), T: x.c.Ite(ok, v.T, z.T)}
